@@ -179,7 +179,7 @@ def evaluate(case, ctx, calibrate=None):
     ctx.label(f'filter={key}')
     ctx.nt(nontriv)
     seed = int(case['np_seed'])
-    stream_status = None
+    stream_status, stream_q, stream_k, sstep = None, None, 0, None
     bias_cls = 'none' if bias is None else 'known' if case.get('bias_known') else 'unknown'
     W_f, rho_f, sensor_cls = rho(key, {sn for w in case['windows'] for sn in w['sensors'] if uses[sn]}, bias_cls)
     ctx.label(f'class={sensor_cls}')
@@ -223,8 +223,10 @@ def evaluate(case, ctx, calibrate=None):
             for w in case['windows']:
                 dropped[int(w['start']):min(int(w['start']) + int(w['length']), n)] = True
             for k in range(1, min(n, last_end + 3)):
+                stream_k = k
                 try:
                     q = np.array(np.asarray(sstep(q, fg[k], fa[k], fm[k])), dtype=float)
+                    stream_q, stream_k = q, k + 1
                 except ValueError:
                     ctx.label('stream_refused_with_ValueError')
                     stream_status = 'refused'
@@ -246,6 +248,18 @@ def evaluate(case, ctx, calibrate=None):
     except ValueError as e:
         ctx.label('refused_with_ValueError')
         if stream_status == 'completed':
+            # ... unless the update method, fed the rest of the history as well, ends up refusing a later sample too (then both
+            # paths refuse, consistently, whatever one thinks of the reason)
+            try:
+                for k in range(stream_k, n):
+                    stream_q = np.array(np.asarray(sstep(stream_q, fg[k], fa[k], fm[k])), dtype=float)
+                    if not np.all(np.isfinite(stream_q)):
+                        break
+            except ValueError:
+                ctx.label('both_paths_refuse_a_later_sample')
+                return
+            except Exception:
+                return
             # The filter's own update method takes every sample of this history, dropped ones included, and answers with valid
             # attitudes: it skips.  A ValueError from the batch run of the same filter is then not a refusal of the dropped sample
             # (typically: a NaN made at the dropout is rejected when the NEXT, valid sample is processed).
